@@ -26,7 +26,8 @@ TECHNIQUE = "property-based differential testing (Hypothesis): two executions of
 RULE = (
     "mc: (ensemble in the five MC drivers, move table from the + / * grammar with shipped criteria, multi-cycle steps, seed from {0,1,small,2^32,2^64+k,...}, "
     "3-12 steps, two global RNG states); fbmc: (ForceBias or AdaptiveForceBias with both schemes and both update functions, calculator, seed, steps). "
-    "Non-trivial = the configuration has a stochastic component and run A visits at least two distinct configurations; distinct = (driver, table shape, seed class, steps)."
+    "hashseed: the same generated configurations are run again in a fresh interpreter with another PYTHONHASHSEED and the digests compared. "
+    "Non-trivial = the configuration has a stochastic component and run A visits at least two distinct configurations (hashseed: at least two table entries); distinct = (driver, table shape, seed class, steps)."
 )
 ASSUMPTIONS = [
     "calculators are pure functions of (positions, cell, numbers) with fixed summation order (ASE EMT/LJ depend on neighbour-list history at 1e-15 and would make a bitwise comparison flaky)",
